@@ -608,3 +608,52 @@ func honourChainMgmtNearer(col *ev.Collector, prefix string, m *universe.Manifes
 		}
 	}
 }
+
+// Class maven_profile_dependency_and_management (C12): a Maven manifest declares a package in
+// <dependencies> of a profile that is active by default and in the top-level
+// <dependencyManagement> (same requirement; different requirements are class
+// maven_dep_and_management_differ). The report carries one update, of the dependencyManagement
+// entry, and the writer rewrites only that entry: the explicit version of the profile's
+// dependency stays.
+const clsProfileDepMgmt = "maven_profile_dependency_and_management"
+
+func profileDepMgmt(m universe.Manifest) []string {
+	if m.Profile == nil {
+		return nil
+	}
+	var names []string
+	for _, g := range m.Management {
+		if declared, _ := m.ProfileDeclares(g.Name); declared {
+			names = append(names, g.Name)
+		}
+	}
+	return names
+}
+
+// honourProfileDepMgmt suppresses the class by dropping the dependencyManagement entry of the
+// packages the profile declares (the profile and its dependencies stay).
+func honourProfileDepMgmt(col *ev.Collector, prefix string, m *universe.Manifest) {
+	if col == nil {
+		return
+	}
+	names := profileDepMgmt(*m)
+	if len(names) == 0 {
+		return
+	}
+	cls := prefix + "." + clsProfileDepMgmt
+	if !col.IsKnown(cls) {
+		return
+	}
+	col.Excluded(cls)
+	var keep []universe.Requirement
+	for _, g := range m.Management {
+		drop := false
+		for _, n := range names {
+			drop = drop || n == g.Name
+		}
+		if !drop {
+			keep = append(keep, g)
+		}
+	}
+	m.Management = keep
+}
